@@ -24,6 +24,20 @@ PLAN = [
     ("REVERT-ca4f83d", "C15", "accept_desc"),
     ("REVERT-085e750", "C07", "loader_nopanic"),
     ("REVERT-344eb37", "C07", "decode_const_r64"),
+    # round 2 / 3 (sub-agent seeds) and the reverse patches of the later fix: commits
+    ("C03-2", "C03", "v2_v2|2drr", "thorough"),
+    ("C04-2", "C04", "opa_div_.*_(rs|as)$", "thorough"),
+    ("C05-2", "C05", "."),
+    ("C11-2", "C11", "vcat"),
+    ("C12-2", "C12", "reshape|l2_mat"),
+    ("C14-2", "C14", "c14_set_subset"),
+    ("C01-2", "C01", "c01_l2_(mul|gt|and)_.*reject"),
+    ("C07-3", "C07", "gate|crc"),
+    ("C15-2", "C15", "excl_step"),
+    ("C20-2", "C20", "."),
+    ("REVERT-57157af", "C04", "l1_.*2drab|l1_set2drab|2drab"),
+    ("REVERT-8ebb798", "C04", "opa_div_.*_(as|asb)$", "thorough"),
+    ("REVERT-32e5644", "C03", "2dvdba|2dvdbA"),
 ]
 VERIF = os.path.dirname(os.path.dirname(os.path.abspath(__file__)))
 
